@@ -27,11 +27,16 @@ const ifaceDecls = `type IP@G@ struct{ x, y int32 }
 func (p *IP@G@) Sum() int32 { return p.x + p.y }
 
 type IQ@G@ struct{ x, y int32 }
-type IM@G@ int32
 type IS@G@ interface{ Sum() int32 }
 
 var ip@G@ = &IP@G@{3, 4}
 `
+
+// the named integer type lives in its own groups: a named non-struct type has no spelling in the
+// Chinese syntax, and C09 leaves out every group whose declarations need one
+const ifaceDeclsIM = ifaceDecls + "type IM@G@ int32\n"
+
+func isIM(d dynVal) bool { return d.name == "IM@G@" }
 
 func ifaceDyns() []dynVal {
 	return []dynVal{
@@ -67,43 +72,62 @@ func FamDataIface(thorough bool) Family {
 	ds := ifaceDyns()
 	short := func(s string) string { return strings.ReplaceAll(s, "@G@", "") }
 	// assertion matrix
+	mkAssert := func(d, a dynVal) []Item {
+		show := fmt.Sprintf(a.show, "v")
+		// classes: assertion to A from a value of that very type, and from any other dynamic type
+		key := "iface|assert|other->" + short(a.name)
+		if a.name == d.name {
+			key = "iface|assert|same->" + short(a.name)
+		}
+		its := []Item{{Key: key, Desc: "e = " + short(d.expr) + "; v, ok := e.(" + short(a.name) + ")",
+			Stmts: fmt.Sprintf("\t\tvar e interface{} = %s\n\t\tv, ok := e.(%s)\n\t\tprintln(ok, %s)", d.expr, a.name, show)}}
+		if a.name == d.name {
+			its = append(its, Item{Key: "iface|assert-single|" + short(d.name), Desc: "e.(" + short(a.name) + ") succeeds",
+				Stmts: fmt.Sprintf("\t\tvar e interface{} = %s\n\t\tv := e.(%s)\n\t\tprintln(%s)\n\t\te2 := e\n\t\tw := e2.(%s)\n\t\tprintln(%s)", d.expr, a.name, show, a.name, fmt.Sprintf(a.show, "w"))})
+		}
+		return its
+	}
+	mkNilAssert := func(a dynVal) Item {
+		return Item{Key: "iface|assert|nil->" + short(a.name), Desc: "var e interface{}; v, ok := e.(" + short(a.name) + ")",
+			Stmts: fmt.Sprintf("\t\tvar e interface{}\n\t\tv, ok := e.(%s)\n\t\tprintln(ok, %s)", a.name, fmt.Sprintf(a.show, "v"))}
+	}
+	gim := Group{Name: "assertions involving the named integer type", Decls: ifaceDeclsIM}
 	for _, d := range ds {
 		if d.expr == "" {
 			continue
 		}
 		g := Group{Name: "assert from " + short(d.name), Decls: ifaceDecls}
 		for _, a := range ds {
-			show := fmt.Sprintf(a.show, "v")
-			// classes: assertion to A from a value of that very type, and from any other dynamic type
-			key := "iface|assert|other->" + short(a.name)
-			if a.name == d.name {
-				key = "iface|assert|same->" + short(a.name)
-			}
-			g.Items = append(g.Items, Item{Key: key, Desc: "e = " + short(d.expr) + "; v, ok := e.(" + short(a.name) + ")",
-				Stmts: fmt.Sprintf("\t\tvar e interface{} = %s\n\t\tv, ok := e.(%s)\n\t\tprintln(ok, %s)", d.expr, a.name, show)})
-			if a.name == d.name {
-				g.Items = append(g.Items, Item{Key: "iface|assert-single|" + short(d.name), Desc: "e.(" + short(a.name) + ") succeeds",
-					Stmts: fmt.Sprintf("\t\tvar e interface{} = %s\n\t\tv := e.(%s)\n\t\tprintln(%s)\n\t\te2 := e\n\t\tw := e2.(%s)\n\t\tprintln(%s)", d.expr, a.name, show, a.name, fmt.Sprintf(a.show, "w"))})
+			if isIM(d) || isIM(a) {
+				gim.Items = append(gim.Items, mkAssert(d, a)...)
+			} else {
+				g.Items = append(g.Items, mkAssert(d, a)...)
 			}
 		}
-		f.Groups = append(f.Groups, g)
+		if len(g.Items) > 0 {
+			f.Groups = append(f.Groups, g)
+		}
 	}
 	// nil interface asserted to everything
 	{
 		g := Group{Name: "assert from nil interface", Decls: ifaceDecls}
 		for _, a := range ds {
-			g.Items = append(g.Items, Item{Key: "iface|assert|nil->" + short(a.name), Desc: "var e interface{}; v, ok := e.(" + short(a.name) + ")",
-				Stmts: fmt.Sprintf("\t\tvar e interface{}\n\t\tv, ok := e.(%s)\n\t\tprintln(ok, %s)", a.name, fmt.Sprintf(a.show, "v"))})
+			if isIM(a) {
+				gim.Items = append(gim.Items, mkNilAssert(a))
+			} else {
+				g.Items = append(g.Items, mkNilAssert(a))
+			}
 		}
 		f.Groups = append(f.Groups, g)
 	}
+	f.Groups = append(f.Groups, gim)
 	// type switch: one function with every case, applied to every dynamic value
 	{
 		var sw strings.Builder
 		sw.WriteString("func ts@G@(e interface{}) int32 {\n\tswitch v := e.(type) {\n\tcase nil:\n\t\treturn 0\n")
 		k := 1
 		for _, d := range ds {
-			if d.expr == "" {
+			if d.expr == "" || isIM(d) {
 				continue
 			}
 			fmt.Fprintf(&sw, "\tcase %s:\n\t\t_ = v\n\t\treturn %d\n", d.name, k)
@@ -114,7 +138,7 @@ func FamDataIface(thorough bool) Family {
 		sw.WriteString("func ts3@G@(e interface{}) int64 {\n\tswitch v := e.(type) {\n\tcase int32:\n\t\treturn int64(v) + 1\n\tcase uint8:\n\t\treturn int64(v) + 2\n\tcase string:\n\t\treturn int64(len(v))\n\tcase IP@G@:\n\t\treturn int64(v.x)\n\tcase *IP@G@:\n\t\treturn int64(v.Sum())\n\tcase IS@G@:\n\t\treturn int64(v.Sum()) + 1000\n\tcase []int32:\n\t\treturn int64(len(v))\n\t}\n\treturn -1\n}\n")
 		g := Group{Name: "type switch", Decls: ifaceDecls + sw.String()}
 		for _, d := range ds {
-			if d.expr == "" {
+			if d.expr == "" || isIM(d) {
 				continue
 			}
 			g.Items = append(g.Items, Item{Key: "iface|type-switch|" + short(d.name), Desc: "switch on " + short(d.expr),
@@ -122,13 +146,15 @@ func FamDataIface(thorough bool) Family {
 		}
 		g.Items = append(g.Items, Item{Key: "iface|type-switch|nil", Desc: "switch on nil", Stmts: "\t\tprintln(ts@G@(nil), ts2@G@(nil), ts3@G@(nil))"})
 		f.Groups = append(f.Groups, g)
+		f.Groups = append(f.Groups, Group{Name: "type switch with a named integer type", Decls: ifaceDeclsIM + "func tsm@G@(e interface{}) int64 {\n\tswitch v := e.(type) {\n\tcase int32:\n\t\treturn int64(v) + 100\n\tcase IM@G@:\n\t\treturn int64(v) + 200\n\tcase int64:\n\t\treturn v + 300\n\t}\n\treturn -1\n}\n",
+			Items: []Item{{Key: "iface|type-switch|IM", Desc: "named integer type among the cases", Stmts: "\t\tprintln(tsm@G@(IM@G@(9)), tsm@G@(int32(9)), tsm@G@(int64(9)), tsm@G@(uint8(9)))"}}})
 	}
 	// equality of interface values: comparable dynamic types, equal and unequal values
 	{
 		g := Group{Name: "interface equality", Decls: ifaceDecls}
 		var cds []dynVal
 		for _, d := range ds {
-			if d.expr != "" && d.cmp {
+			if d.expr != "" && d.cmp && !isIM(d) {
 				cds = append(cds, d)
 			}
 		}
@@ -141,7 +167,7 @@ func FamDataIface(thorough bool) Family {
 					Stmts: fmt.Sprintf("\t\tvar x, y interface{} = %s, %s\n\t\tprintln(x == y, x != y, x == x, x == nil, nil != y)", a.expr, b.expr)})
 			}
 		}
-		vals := [][2]string{{"int32(1)", "int32(2)"}, {"\"a\"", "\"b\""}, {"\"ab\"", "\"a\" + \"b\""}, {"IP@G@{1, 2}", "IP@G@{1, 3}"}, {"IP@G@{1, 2}", "IP@G@{1, 2}"}, {"&IP@G@{1, 2}", "&IP@G@{1, 2}"}, {"[2]int32{1, 2}", "[2]int32{1, 2}"}, {"[2]int32{1, 2}", "[2]int32{2, 1}"}, {"float64(0)", "-float64(0)"}, {"uint64(1)<<63", "uint64(1)<<63"}, {"int64(-1)", "int64(4294967295)"}, {"true", "false"}, {"IM@G@(1)", "int32(1)"}}
+		vals := [][2]string{{"int32(1)", "int32(2)"}, {"\"a\"", "\"b\""}, {"\"ab\"", "\"a\" + \"b\""}, {"IP@G@{1, 2}", "IP@G@{1, 3}"}, {"IP@G@{1, 2}", "IP@G@{1, 2}"}, {"&IP@G@{1, 2}", "&IP@G@{1, 2}"}, {"[2]int32{1, 2}", "[2]int32{1, 2}"}, {"[2]int32{1, 2}", "[2]int32{2, 1}"}, {"float64(0)", "-float64(0)"}, {"uint64(1)<<63", "uint64(1)<<63"}, {"int64(-1)", "int64(4294967295)"}, {"true", "false"}}
 		for _, v := range [][2]string{{"int(1)", "int32(1)"}, {"uint(1)", "uint32(1)"}, {"uintptr(1)", "uint(1)"}, {"rune(1)", "int32(1)"}, {"byte(1)", "uint8(1)"}} {
 			g.Items = append(g.Items, Item{Key: "iface|equal-values|same representation, " + v[0] + " vs " + v[1], Desc: v[0] + " == " + v[1],
 				Stmts: fmt.Sprintf("\t\tvar x, y interface{} = %s, %s\n\t\tprintln(x == y, x != y)", v[0], v[1])})
@@ -150,6 +176,8 @@ func FamDataIface(thorough bool) Family {
 			g.Items = append(g.Items, Item{Key: "iface|equal-values", Desc: short(v[0]) + " == " + short(v[1]),
 				Stmts: fmt.Sprintf("\t\tvar x, y interface{} = %s, %s\n\t\tprintln(x == y, x != y)\n\t\tvar z interface{} = x\n\t\tprintln(z == x)", v[0], v[1])})
 		}
+		f.Groups = append(f.Groups, Group{Name: "interface equality with a named integer type", Decls: ifaceDeclsIM, Items: []Item{{Key: "iface|equal-values|named integer type", Desc: "IM(1) == int32(1), IM(1) == IM(1)",
+			Stmts: "\t\tvar x, y, z interface{} = IM@G@(1), int32(1), IM@G@(1)\n\t\tprintln(x == y, x != y, x == z, x == IM@G@(1))"}}})
 		g.Items = append(g.Items, Item{Key: "iface|equal-to-concrete", Desc: "interface == concrete value", Stmts: "\t\tvar x interface{} = int32(5)\n\t\tprintln(x == int32(5), x == int64(5), x != \"5\")\n\t\tvar s IS@G@ = ip@G@\n\t\tprintln(s == ip@G@, s != ip@G@)"})
 		f.Groups = append(f.Groups, g)
 	}
